@@ -1,0 +1,120 @@
+package internal
+
+import (
+	"sync"
+	"sync/atomic"
+	"testing"
+	"time"
+
+	"github.com/stretchr/testify/require"
+)
+
+// An expiry attempt that finds the deadline extended by a concurrent update
+// must leave the entry exactly as if the attempt had not happened.
+func TestStore_ExpireDeadlineExtended(t *testing.T) {
+	// the timing wheel found the entry expired, but the deadline is extended
+	// before removeEntry rechecks it
+	t.Run("wheel", func(t *testing.T) {
+		store := NewStore[int, int](&StoreOptions[int, int]{MaxSize: 1000})
+		defer store.Close()
+		var notified atomic.Int32
+		store.removalListener = func(key, value int, reason RemoveReason) {
+			notified.Add(1)
+		}
+
+		store.Set(1, 1, 1, time.Hour)
+		store.Wait()
+		_, index := store.index(1)
+		shard := store.shards[index]
+		tk := shard.mu.RLock()
+		entry, ok := shard.get(1)
+		shard.mu.RUnlock(tk)
+		require.True(t, ok)
+
+		store.policyMu.Lock()
+		scheduled := entry.meta.wheelPrev != nil
+		if scheduled {
+			// same as TimerWheel.expire
+			store.timerwheel.deschedule(entry)
+			store.removeEntry(entry, EXPIRED)
+		}
+		removed := entry.flag.IsRemoved()
+		inPolicy := entry.meta.prev != nil
+		inWheel := entry.meta.wheelPrev != nil
+		store.policyMu.Unlock()
+		require.True(t, scheduled)
+		require.False(t, removed)
+		require.True(t, inPolicy)
+		require.True(t, inWheel)
+
+		// later events are still applied to the entry
+		store.Set(1, 2, 5, 0)
+		store.Wait()
+		store.policyMu.Lock()
+		policyWeight := entry.policyWeight
+		weightedSize := store.policy.weightedSize
+		store.policyMu.Unlock()
+		require.Equal(t, 5, int(policyWeight))
+		require.Equal(t, 5, int(weightedSize))
+		v, ok := store.Get(1)
+		require.True(t, ok)
+		require.Equal(t, 2, v)
+		require.Equal(t, int32(0), notified.Load())
+	})
+
+	// the NEW event found the entry expired already, but the deadline is
+	// extended before removeEntry rechecks it. The deadline is flipped
+	// concurrently to hit that window.
+	t.Run("new", func(t *testing.T) {
+		store := NewStore[int, int](&StoreOptions[int, int]{MaxSize: 100000})
+		defer store.Close()
+		past := int64(1)
+		future := store.timerwheel.clock.ExpireNano(time.Hour)
+
+		var current atomic.Pointer[Entry[int, int]]
+		var stop atomic.Bool
+		var wg sync.WaitGroup
+		wg.Add(1)
+		go func() {
+			defer wg.Done()
+			for !stop.Load() {
+				if e := current.Load(); e != nil {
+					e.expire.Store(future)
+					e.expire.Store(past)
+				}
+			}
+		}()
+		defer wg.Wait()
+		defer stop.Store(true)
+
+		for i := 0; i < 5000; i++ {
+			h, index := store.index(i)
+			shard := store.shards[index]
+			entry := &Entry[int, int]{key: i, value: i}
+			entry.weight.Store(1)
+			entry.expire.Store(past)
+			shard.mu.Lock()
+			shard.set(i, entry)
+			shard.mu.Unlock()
+
+			store.policyMu.Lock()
+			current.Store(entry)
+			store.sinkWrite(WriteBufItem[int, int]{
+				entry: entry, code: NEW, costChange: 1, hash: h,
+			})
+			current.Store(nil)
+			tk := shard.mu.RLock()
+			_, inMap := shard.get(i)
+			shard.mu.RUnlock(tk)
+			inPolicy := entry.meta.prev != nil
+			inWheel := entry.meta.wheelPrev != nil
+			removed := entry.flag.IsRemoved()
+			store.policyMu.Unlock()
+
+			// either expired and gone, or inserted normally
+			require.Equal(t, inMap, inPolicy, "resident entry not tracked by policy")
+			require.Equal(t, inMap, inWheel)
+			require.Equal(t, !inMap, removed)
+		}
+	})
+}
